@@ -52,6 +52,7 @@ def run(ctx):
     prog = ctx.prog
     r03a(ctx)
     r03bc(ctx)
+    r03d(ctx)
 
 
 def class_chain(prog, cls):
@@ -224,3 +225,50 @@ EXPLANATION = ("Necessary conditions of completeness decided statically for all 
                "verifier's equations follow from the prover's computation is not decided.")
 ASSUMPTIONS = ["tables are used only after the precompute of their class ran (constructor / Finalize)",
                "numeric string literals sent are values, other literals are framing", "prover and verifier are paired by name"]
+
+
+def r03d(ctx):
+    """constructor sibling agreement: a configuration parameter that one constructor of a class
+    forwards to the construction of a sub-object is forwarded by its sibling constructors too
+    (otherwise two parties that build the same object in different ways disagree on it)"""
+    prog = ctx.prog
+    n = 0
+    for cls in sorted(prog.classes):
+        ctors = [f for f in prog.by_q.get(cls + '::' + cls.split('::')[-1], []) if f['kind'] == 'ctor' and 'RFC4880' not in f['file']]
+        if len(ctors) < 2:
+            continue
+        fw = []
+        for f in ctors:
+            a = ctx.analysis(f)
+            T = a.T
+            d = {}
+            for nid, ev in a.all_events('ctor'):
+                sub = ev[1]
+                if sub.startswith('std::') or sub == '(anonymous)':
+                    continue
+                for i, t in enumerate(ev[2]):
+                    nn = T.node(t)
+                    if nn[0] == 'param':
+                        d.setdefault(sub, set()).add(nn[1])
+                    d.setdefault(sub, set())
+            fw.append((f, d))
+        for i in range(len(fw)):
+            for j in range(i + 1, len(fw)):
+                (f1, d1), (f2, d2) = fw[i], fw[j]
+                p1 = set(p['n'] for p in f1['params'])
+                p2 = set(p['n'] for p in f2['params'])
+                for sub in sorted(set(d1) & set(d2)):
+                    for q in sorted(p1 & p2):
+                        n += 1
+                        in1, in2 = q in d1[sub], q in d2[sub]
+                        key = 'R03d:%s:%s:%s:%d/%d' % (cls, sub, q, f1['line'], f2['line'])
+                        key = 'R03d:%s:%s:%s' % (cls, sub, q)
+                        if in1 == in2:
+                            if in1:
+                                ctx.ok('R03d', key, 'both constructors forward %s to the %s sub-object' % (q, sub), f1)
+                        else:
+                            g = f2 if in1 else f1
+                            ctx.bad('R03d', key, 'constructor at line %d forwards its parameter %s to the %s sub-object, the sibling constructor at line %d '
+                                    'does not: objects built from a stream and from parameters disagree, honest proofs between them fail' % (
+                                        (f1 if in1 else f2)['line'], q, sub, g['line']), g)
+    ctx.floor('R03d', n, 6)
